@@ -71,8 +71,8 @@ Proof. vm_compute. auto. Qed.
 
 (* ---------------------------------------------------------------- file lock *)
 Definition fst_of (o : option fstate) : fstate := match o with Some s => s | None => finit [] end.
-Definition frd := FCy R 0.
-Definition fwr := FCy W 0.
+Definition frd := FCy R 0 false.
+Definition fwr := FCy W 0 false.
 
 (* readers of two different processes inside together; a writer of a third process blocked in flock() *)
 Definition fs_readers := fst_of (frun [0;0;0;0;0; 1;1;1;1;1] (finit [(0, [frd]); (1, [frd]); (2, [fwr])])).
@@ -161,3 +161,21 @@ Example ex_cond_writer_excluded :
   | None => False
   end.
 Proof. vm_compute. eexists. split; reflexivity. Qed.
+
+(* a FAILED acquisition (flock raises OSError) is an event of the model: while thread 0 reads, the attempts of thread 1
+   (same process, mode w, then mode r) fail; the bookkeeping still says "one reader", `locked` = "r"; afterwards the
+   reader leaves and a writer of the same process is admitted (no "Guarantees failed" later on) *)
+Definition fs_after_failures :=
+  fst_of (frun [0;0;0;0;0; 1;1; 1;1] (finit [(0, [frd]); (0, [FCy W 0 true; FCy R 0 true; fwr])])).
+Example ex_file_failed_attempts :
+  freachable fs_after_failures /\ p_readers (proc_of (glob fs_after_failures) 0) = 1%Z /\
+  p_writer (proc_of (glob fs_after_failures) 0) = false /\ flocked_val (proc_of (glob fs_after_failures) 0) = FLR /\
+  count (fholds_in 0 R) (thr fs_after_failures) = 1 /\ k_sh (glob fs_after_failures) = 1 /\
+  match frun [0;0;0;0; 1;1;1;1;1] fs_after_failures with
+  | Some s => count (fin_cs W) (thr s) = 1 /\ p_writer (proc_of (glob s) 0) = true /\ p_readers (proc_of (glob s) 0) = 0%Z
+  | None => False
+  end.
+Proof.
+  split; [eapply (frun_reachable [(0, [frd]); (0, [FCy W 0 true; FCy R 0 true; fwr])] [0;0;0;0;0; 1;1; 1;1]); vm_compute; reflexivity|].
+  vm_compute. repeat split; auto.
+Qed.
